@@ -70,6 +70,8 @@ class Session:
         self.rc = 0
         self.sc = 0
         self.produced: list[bytes] = []  # genuine encrypted response fragments in production order
+        self.plain: dict[bytes, bytes] = {}
+        self.monitor = None  # vf.monitors.AeadMonitor (C06): every genuine fragment is registered with its production index
         self.decrypt_errors = 0
 
     def decrypt(self, data):
@@ -83,12 +85,18 @@ class Session:
 
     def encrypt(self, data):
         ct = self.enc.encrypt(nonce(self.sc), bytes(data), b"")
+        if self.monitor is not None:
+            self.monitor.register_genuine(self.a2c_key, ct, self.sc)
         self.sc += 1
         self.produced.append(ct)
+        self.plain[ct] = bytes(data)
         return ct
 
     def encrypt_at(self, data, counter):
-        return self.enc.encrypt(nonce(counter), bytes(data), b"")
+        ct = self.enc.encrypt(nonce(counter), bytes(data), b"")
+        if self.monitor is not None:
+            self.monitor.register_genuine(self.a2c_key, ct, counter)
+        return ct
 
 
 class BleAccessory:
@@ -167,15 +175,19 @@ class BleAccessory:
             reply = ex.m1(items)
             if ex.resumed:
                 self._install(client, ex)
-        else:
+        elif state == b"\x03" and client.exchange is not None and not client.exchange.resumed:
             ex = client.exchange
             reply = ex.m3(items)
             if ex.verified:
                 self._install(client, ex)
+        else:
+            # anything else (e.g. a fragment acknowledgement provoked by a corrupted reply) is not a pair-verify step
+            reply = [(6, b"\x02"), (7, b"\x01")]
         return 0, reftlv.encode([(1, reftlv.encode(reply))]), None, None
 
     def _install(self, client, ex):
         s = Session(ex.controller_to_accessory_key, ex.accessory_to_controller_key, len(self.sessions))
+        s.monitor = getattr(self, "monitor", None)
         self.sessions.append(s)
         client.session = s
 
